@@ -232,7 +232,8 @@ def cache_afterRead : List (Nat × String) :=
    (0, "fi")]
 
 def cache_getNode : List (Nat × String) :=
-  [(0, "if n==nil"),
+  [(0, "call Get"),
+   (0, "if n==nil"),
    (0, "then"),
    (1, "if c.drainStatus.Load()==required"),
    (2, "Load drainStatus"),
